@@ -33,6 +33,8 @@ def run(ctx):
     selftest = srvfam.binding_selftest(ctx, tpath, epath, c2)
     # 3. code -> spec: random sessions beyond TLC's bounds (many outstanding requests, pool overflow)
     runs = [dict(nreq=8, nt=8, cases=150 if q else 1500), dict(nreq=16, nt=16, cases=60 if q else 600)]
+    # one long delay per case (every hook in turn, first/second/third request) while the session goes on
+    runs += [dict(nreq=5, nt=5, cases=360 if q else 3600, hold=True), dict(nreq=5, nt=5, cases=360 if q else 3600, hold=True)]
     if not q:
         runs += [dict(nreq=40, nt=64, cases=60), dict(nreq=70, nt=70, cases=20)]
     rdrift = 0
@@ -41,7 +43,7 @@ def run(ctx):
         cr = srvfam.consts(ctx, NReq=rr["nreq"], Tags=set(range(1, rr["nt"] + 1)), Fids={1, 2, 3},
                            Kinds={"Attach", "Stat", "Clunk", "Walk", "Flush"}, Extra=True, Late=True, InitFids={1})
         rc = {"cases": rr["cases"], "nreq": rr["nreq"], "kinds": ["Attach", "Stat", "Stat", "Clunk", "Walk", "Flush"],
-              "shared": False, "close": False, "extra": True, "latep": 15, "sendp": 35 if rr["nreq"] < 40 else 70, "probe": False}
+              "shared": False, "close": False, "extra": True, "latep": 15, "sendp": 35 if rr["nreq"] < 40 else 70, "probe": False, "hold": rr.get("hold", False)}
         tag = "rand%d" % i
         # every second run goes through the SrvReqProcessOps override path (same specification)
         rrep, tpath, epath, bpath = srvfam.random_run(ctx, cr, rc, tag, 100000 * (i + 1), processops=(i % 2 == 1))
